@@ -56,7 +56,24 @@ func c20Stop(x *mc.Cell, sc Scenario) {
 					stops = append(stops, r.rsp.StopOnce)
 				}
 				for _, s := range stops {
-					hang, cr := mc.Call(s)
+					cr := mc.Go(s)
+					mc.Wait()
+					// a store read / commit that the harness is holding back completes while the node shuts down (a disk
+					// operation returns eventually); held messages and validations stay held
+					for round := 0; round < 200 && !cr.Returned(); round++ {
+						released := false
+						for _, it := range w.Q.Pending() {
+							if it.Kind == "read" || it.Kind == "commit" {
+								w.Q.Release(it)
+								released = true
+							}
+						}
+						if !released {
+							time.Sleep(10 * time.Minute) // timeouts inside Stop get their chance (24 h in all)
+						}
+						mc.Wait()
+					}
+					hang := !cr.Returned()
 					if hang || cr.Panic != nil {
 						stacks := mc.BlockedStacks(5)
 						n := mc.Unblock()
